@@ -251,6 +251,31 @@ def compiled(limit, nd, query, how="subclass"):
     if how == "subclass":
         return env(limit, nd).compile(query)
     from jsonpath_rfc9535 import JSONPathEnvironment
+    if how == "instance-before-compile":
+        e = JSONPathEnvironment()
+        e.max_recursion_depth = limit
+        e.nondeterministic = nd
+        return e.compile(query)
+    if how == "subclass-of-subclass":
+        class Base(JSONPathEnvironment):
+            max_recursion_depth = 7
+            nondeterministic = not nd
+
+        class Derived(Base):
+            max_recursion_depth = limit
+            nondeterministic = nd
+
+        return Derived().compile(query)
+    if how == "class-attribute-set-later":
+        # the limit is assigned on the SUBCLASS after an instance exists and the query is compiled
+        class Late(JSONPathEnvironment):
+            pass
+
+        e = Late()
+        cq = e.compile(query)
+        Late.max_recursion_depth = limit
+        Late.nondeterministic = nd
+        return cq
     e = JSONPathEnvironment()
     cq = e.compile(query)
     e.max_recursion_depth = limit
@@ -537,10 +562,12 @@ def run_shard(desc):
                         spec = {"kind": "chain", "n": n, "link": link, "bottom": "scalar", "where": "alone"}
                         for nd in (False, True):
                             for q in ("$..*", "$..a"):
-                                sh.nontrivial += 1
-                                for v in check_input(spec, limit, nd, q, full_tree=(limit <= full_upto), sh=sh,
-                                                     dev=1, cap=3000, how="instance-after-compile"):
-                                    sh.violation(v)
+                                for how in ("instance-after-compile", "instance-before-compile", "subclass-of-subclass",
+                                            "class-attribute-set-later"):
+                                    sh.nontrivial += 1
+                                    for v in check_input(spec, limit, nd, q, full_tree=(limit <= full_upto), sh=sh,
+                                                         dev=1, cap=3000, how=how):
+                                        sh.violation(v)
             for name in ("self-list", "two-cycle"):
                 for limit in (2, 150):
                     for nd in (False, True):
